@@ -6,6 +6,7 @@ CONSTANTS
   SlotType <- TraceSlotType
   MaxExplicit = 3
   Policy <- PolicyAny
+  Layout = "single"
   MemberTypes <- MembersDerived
 INVARIANTS Conservation AliveIffReferenced NoDangling StaticTypes
 POSTCONDITION Post
